@@ -15,7 +15,8 @@ def diff_str(d):
 
 
 def run_query_property(prop, judge, imports, known_map, rule, assumptions, tier, seed, n_quick=1200, n_thorough=30000,
-                       gen=None, engine="postgresql", extra=None, corr_name="compile", what="the property fails"):
+                       gen=None, engine="postgresql", extra=None, corr_name="compile", what="the property fails", extra_args=None,
+                       classify=None, with_generate=False, second=None):
     """known_map: class number -> known-finding class name; gen(rng) -> case dict"""
     rep = Report(prop, tier, seed)
     ok, info = prep(prop)
@@ -32,6 +33,12 @@ def run_query_property(prop, judge, imports, known_map, rule, assumptions, tier,
     for lo in range(0, len(cases), 3000):
         chunk = cases[lo:lo + 3000]
         res = run_harness(compile_jobs(chunk, engine=engine))
+        gens = [None] * len(chunk)
+        if with_generate:
+            cfg = json.dumps({"version": "1", "packages": [{"path": "db", "engine": engine, "schema": "schema.sql",
+                              "queries": "query.sql", "emit_db_tags": True}]})
+            gens = run_harness([{"op": "generate", "summary": True, "nofiles": True,
+                                 "files": {"sqlc.json": cfg, "schema.sql": c["schema"], "query.sql": c["queries"]}} for c in chunk])
         exprs, idx = [], []
         for i, (c, r) in enumerate(zip(chunk, res)):
             if "panic" in r and "ast" not in r:
@@ -45,9 +52,27 @@ def run_query_property(prop, judge, imports, known_map, rule, assumptions, tier,
             if impl is None:
                 rep.count("skipped:multi")
                 continue
-            exprs.append("%s %s %s %s %s" % (judge, env_coq(r, engine), node_coq(r["ast"][0]), coqstr(c["queries"]), impl))
+            if with_generate:
+                r = dict(r)
+                r["_gen"] = gens[i]
+                res[i] = r
+            xa = " ".join(extra_args(c, r)) if extra_args else ""
+            exprs.append("%s %s %s %s %s %s" % (judge, env_coq(r, engine), node_coq(r["ast"][0]), coqstr(c["queries"]), xa, impl))
             idx.append(i)
         verdicts = coq_eval(header, exprs, tag=prop.lower())
+        if second is not None:
+            mk, handle = second
+            ex2, ix2 = [], []
+            for i in idx:
+                e2 = mk(chunk[i], res[i], env_coq(res[i], engine))
+                if e2 is not None:
+                    ex2.append(e2)
+                    ix2.append(i)
+            for i, v2 in zip(ix2, coq_eval(header, ex2, tag=prop.lower() + "go")):
+                c, r = chunk[i], res[i]
+                handle(rep, c, r, v2, {"schema": c["schema"], "queries": c["queries"],
+                                      "impl": {k: r.get(k) for k in ("ok", "errs", "queries")},
+                                      "go": (r.get("_gen") or {}).get("summary", {}).get("db/query.sql.go", {}).get("methods")})
         for i, v in zip(idx, verdicts):
             c, r = chunk[i], res[i]
             wf, known, holds, diff = v
@@ -71,7 +96,8 @@ def run_query_property(prop, judge, imports, known_map, rule, assumptions, tier,
             if extra is not None:
                 extra(rep, c, r, v, replay)
             if not holds:
-                rep.violation("%s (class %d)" % (what, known), replay, klass=known_map.get(known))
+                klass = classify(known, c, r) if classify else known_map.get(known)
+                rep.violation("%s (class %s)" % (what, klass if klass else known), replay, klass=klass)
             elif diff and not blind and not (reparse and diff == 32):
                 rep.violation("correspondence corr:%s:%s broken: model and sqlc differ in %s; the property holds on this input"
                               % (prop, corr_name, diff_str(diff)), replay, no_input=True)
